@@ -203,11 +203,16 @@ func (m *Minifier) apply(vis *minifyVisitor) (madeReplacements bool) {
 		return false
 	}
 	// sort by depth
-	slices.SortStableFunc(replacements, func(a, b *stats) int {
-		if a.depth == b.depth {
-			return strings.Compare(b.enclosingTypeName, a.enclosingTypeName)
+	slices.SortFunc(replacements, func(a, b *stats) int {
+		if a.depth != b.depth {
+			return b.depth - a.depth
 		}
-		return b.depth - a.depth
+		if c := strings.Compare(b.enclosingTypeName, a.enclosingTypeName); c != 0 {
+			return c
+		}
+		// replacements come out of a map: break ties by position in the document so that the
+		// generated fragment names do not depend on map iteration order
+		return a.items[0].selectionSet - b.items[0].selectionSet
 	})
 	for _, s := range replacements {
 		m.replaceItems(s)
